@@ -60,6 +60,7 @@ inductive Expr where
   | lenB (a : Expr)                         -- `len(a)` of a byte slice
   | sliceB (a lo hi : Expr)                 -- `a[lo:hi]` of a byte slice (a missing bound is printed as 0 / `len(a)`)
   | le64 (a : Expr)                         -- `binary.LittleEndian.Uint64(a)`
+  | appendB (a b : Expr)                    -- `append(a, b...)` of byte slices (the new content of the slice)
   deriving Repr, Inhabited
 
 inductive Stmt where
@@ -228,6 +229,15 @@ def evalE (s : St) : Expr → EOut
        | .val _ => .stuck "slice bound type"
        | o => o)
     | .val _ => .stuck "slice operand"
+    | o => o
+  | .appendB a b =>
+    match evalE s a with
+    | .val (.bytes x) =>
+      (match evalE s b with
+       | .val (.bytes y) => .val (.bytes (x ++ y))
+       | .val _ => .stuck "append operand"
+       | o => o)
+    | .val _ => .stuck "append operand"
     | o => o
   | .le64 a =>
     match evalE s a with
